@@ -1179,6 +1179,8 @@ class Kernel:
             return self.block(rest, env, loop)
         if isinstance(s, ast.Pass):
             return self.block(rest, env, loop)
+        if any(ast.unparse(s).startswith(pfx) for pfx in self.spec.get("skip_statements", [])):
+            return self.block(rest, env, loop)        # statements the kernel's spec lists as not translated (floats / reporting), see IMP_KERNELS
         # message for the raise that follows
         if isinstance(s, ast.Assign) and len(s.targets) == 1 and isinstance(s.targets[0], ast.Name) and isinstance(s.value, ast.JoinedStr) \
                 and rest and isinstance(rest[0], ast.Raise) and uses_only_in(rest[0], s.targets[0].id):
@@ -1493,6 +1495,29 @@ class Kernel:
         f = c.func
         binds = []
         path = dotted(f)
+        if path in self.spec.get("skip_calls", []):
+            return self.block(rest, env, loop)
+        if path in self.spec.get("call_templates", {}):
+            # a call of ANOTHER TRANSLATED KERNEL with the current values of the state it works on; its results are bound back by name
+            lean, args, results = self.spec["call_templates"][path]
+            for a in args:
+                if a not in env and a != "fuel":
+                    raise Unsupported(f"kernel call needs `{a}`")
+                if a == "fuel":
+                    self.uses_fuel = True
+            nm = self.fresh("kc")
+            rty = ("tuple", [env[r] for r in results]) if len(results) > 1 else env[results[0]]
+            binds.append((nm, "(" + " ".join([lean] + [mg(a) for a in args]) + ")", rty))
+            lets, proj = [], nm
+            for k, r in enumerate(results):
+                if len(results) == 1:
+                    lets.append(self.let(r, env[r], nm))
+                elif k < len(results) - 1:
+                    lets.append(self.let(r, env[r], f"{proj}.1"))
+                    proj = f"{proj}.2"
+                else:
+                    lets.append(self.let(r, env[r], proj))
+            return self.with_binds(binds, lets + self.block(rest, env, loop))
         if path and path.startswith("logging."):
             return self.block(rest, env, loop)          # log output is never modelled (its arguments are not evaluated here)
         if path and path in self.spec.get("opaque", {}):
@@ -2169,6 +2194,30 @@ IMP_KERNELS_10 = [
          locals={"new_scffld": O("lref"), "last_added_i": O("int")}, dict_roots={"self.scaffold_namer": "namer"}),
 ]
 
+STATE = ["store", "heap_ff", "self_scaffold_namer", "self_found_fragments", "self_fragments_found_more_than_once"]
+IMP_KERNELS_11 = [
+    # the driver of phase 1.  NOT translated (listed, visible in the source comment above the definition): the default of `bp_per_texel` (a float; the
+    # error length derived from it is a parameter) and the reference to the input assembly kept for the statistics.
+    dict(file=BA, qual="BuildAssembly.remap_to_input_assembly", lean="BuildAssembly_remap_to_input_assembly", heap=True, oid_counter=True, found_arena=True,
+         leftover_arena=True, build_assembly=True,
+         skip_statements=["if not self.bp_per_texel", "self.assembly_stats.input_assembly = "],
+         params={"prtxt_asm_scaffolds": L("scaffold"), "input_asm_scaffolds": L("scaffold"), "self_error_length": "int", "self_default_gap": "gap",
+                 "input_asm_find_overlaps": ("fun", ["frag"], O("ovres"), True)},
+         dict_roots={"self.scaffold_namer": "namer", "self.found_fragments": FF_DICT, "self.fragments_found_more_than_once": FF_DICT,
+                     "self.assembly_stats.cuts": "int"},
+         call_templates={
+             "self.find_assembly_overlaps": ("BuildAssembly_find_assembly_overlaps", STATE + ["prtxt_asm_scaffolds", "self_error_length", "input_asm_find_overlaps"],
+                                             ["store", "heap_ff", "self_scaffold_namer", "self_found_fragments", "self_fragments_found_more_than_once"]),
+             "self.discard_overhanging_fragments": ("BuildAssembly_discard_overhanging_fragments", ["fuel", "store", "heap_ff", "self_fragments_found_more_than_once", "self_error_length"],
+                                                    ["store", "heap_ff", "self_fragments_found_more_than_once"]),
+             "self.cut_remaining_overhangs": ("BuildAssembly_cut_remaining_overhangs", ["store", "nextOid", "heap_ff", "self_fragments_found_more_than_once", "self_assembly_stats_cuts"],
+                                              ["store", "nextOid", "heap_ff", "self_fragments_found_more_than_once", "self_assembly_stats_cuts"]),
+             "self.scaffold_namer.rename_haplotigs_by_size": ("ScaffoldNamer_rename_haplotigs_by_size", ["store", "self_scaffold_namer"], ["store"]),
+             "self.add_missing_scaffolds_from_input": ("BuildAssembly_add_missing_scaffolds_from_input", ["self_scaffold_namer", "input_asm_scaffolds", "self_default_gap", "self_found_fragments"],
+                                                       ["heap_lo", "added_lo", "self_scaffold_namer"]),
+         }),
+]
+
 IMP_KERNELS = [
     dict(file="assembly/indexed_assembly.py", qual="IndexedAssembly.find_overlaps", lean="IndexedAssembly_find_overlaps",
          params={"bait": "frag"}, returns=O("ovres"), locals={"ovr": O("int")},
@@ -2200,7 +2249,7 @@ IMP_KERNELS = [
 def main():
     parts = ["/- GENERATED by harness/translate_imp.py from /repo/src — do not edit -/", "import AgpTpf.Model.PyRt", "import AgpTpf.Model.PyRtHeap", "import AgpTpf.Model.Lookup",
              "import AgpTpf.Model.Fasta", "import AgpTpf.Model.Text", "set_option linter.unusedVariables false", "namespace AgpTpf.Gen.Imp", "open AgpTpf", ""]
-    for spec in IMP_KERNELS + IMP_KERNELS_2 + IMP_KERNELS_3 + IMP_KERNELS_4 + IMP_KERNELS_5 + IMP_KERNELS_6 + IMP_KERNELS_7 + IMP_KERNELS_8 + IMP_KERNELS_9 + IMP_KERNELS_10:
+    for spec in IMP_KERNELS + IMP_KERNELS_2 + IMP_KERNELS_3 + IMP_KERNELS_4 + IMP_KERNELS_5 + IMP_KERNELS_6 + IMP_KERNELS_7 + IMP_KERNELS_8 + IMP_KERNELS_9 + IMP_KERNELS_10 + IMP_KERNELS_11:
         parts.append(translate(spec))
     parts.append("end AgpTpf.Gen.Imp\n")
     txt = "\n".join(parts)
